@@ -1,4 +1,5 @@
 /- C17 registration module: the property/reason-code theorems (Properties/C17) and the equality of the translated
 `VariableByteIntegers.encode/decode` (Paho.Gen.Fn, regenerated from the source) with the model's functions. -/
 import PahoProofs.Properties.C17
-import PahoProofs.Properties.FnEquiv
+import PahoProofs.Properties.FnVbi
+import PahoProofs.Properties.FnSubOpts
